@@ -69,7 +69,7 @@ def opts_for(tp, rng):
 
 
 def run(ctx):
-    ctx.level = "exploration"
+    ctx.level = "proof"
     exe = ctx.harness("qv_sim")
     if not exe:
         return
@@ -94,4 +94,14 @@ def run(ctx):
         else:
             scenarios.append(simlib.t_failing_member(ctx.rng, site=sites[k % len(sites)], when=whens[(k // len(sites)) % 3]))
             k += 1
-    simlib.explore(ctx, runner, scenarios, nsched, judge, route=route, opts_for=opts_for)
+    ok, drv = simlib.proof_layer(ctx)
+    res, meta, failures = simlib.explore(ctx, runner, scenarios, nsched, judge, route=route, opts_for=opts_for)
+    if drv:
+        # effects are outside M-Sys: replay the scenarios without effect sites
+        idx = [i for i in range(len(meta)) if meta[i][2] != "corpus" and "__test_" not in str(scenarios[meta[i][0]]["src"])]
+        step = max(1, len(idx) // ctx.n(90, 1500))
+        sample = [simlib.case_line(scenarios[meta[i][0]]["src"], meta[i][1][0], meta[i][1][1], meta[i][2] if meta[i][2] != "fair" else "")
+                  for i in idx[::step]]
+        simlib.correspondence(ctx, exe, drv, sample, lambda s: basic_problems(s))
+    if not ok:
+        simlib.theorem_broken(ctx, sum(len(v) for k, v in failures.items() if k[2] is None))
